@@ -98,9 +98,20 @@ def run(cmd, timeout=600, env=None, cwd=None, stdin=None, rlimit_as=None, rlimit
         if ignore_xfsz:
             signal.signal(signal.SIGXFSZ, signal.SIG_IGN)
 
-    p = subprocess.Popen(cmd, stdin=subprocess.PIPE if stdin is not None else subprocess.DEVNULL,
-                         stdout=subprocess.PIPE, stderr=subprocess.PIPE, env=e, cwd=cwd,
-                         preexec_fn=pre)
+    if rlimit_fsize is None and not ignore_xfsz and not rlimit_stack:
+        # fast path (vfork): no preexec_fn; the address-space limit is applied right after spawn
+        p = subprocess.Popen(cmd, stdin=subprocess.PIPE if stdin is not None else subprocess.DEVNULL,
+                             stdout=subprocess.PIPE, stderr=subprocess.PIPE, env=e, cwd=cwd,
+                             start_new_session=True)
+        if rlimit_as:
+            try:
+                resource.prlimit(p.pid, resource.RLIMIT_AS, (rlimit_as, rlimit_as))
+            except (ProcessLookupError, PermissionError, ValueError):
+                pass
+    else:
+        p = subprocess.Popen(cmd, stdin=subprocess.PIPE if stdin is not None else subprocess.DEVNULL,
+                             stdout=subprocess.PIPE, stderr=subprocess.PIPE, env=e, cwd=cwd,
+                             preexec_fn=pre)
     try:
         out, err = p.communicate(stdin, timeout=timeout)
         return p.returncode, out, err, False
